@@ -815,6 +815,88 @@ pub fn check_order_pool(r: &mut Recorder) {
     }
 }
 
+/// MC_Iter.tla: the streaming readers (a peekable iterator of subtags with a cursor that outlives the call).
+/// No listed property names these #[doc(hidden)] entry points: a disagreement is counted as drift; a panic is C01.
+#[cfg(feature = "iterapi")]
+pub fn check_iter(r: &mut Recorder, c: &Value) {
+    let toks = unbytes_list(&c["toks"]);
+    let allow = c["allow"].as_bool().unwrap_or(false);
+    r.stat("iter_cases");
+    let run = |which: u8| {
+        let mut it = toks.iter().map(|t| t.as_slice()).peekable();
+        let res = if which == 0 { LanguageIdentifier::try_from_iter(&mut it, allow).map_err(|e| li_err_kind(&e).to_string()) }
+                  else { unic_langid_impl::parser::parse_language_identifier_from_iter(&mut it, allow).map_err(|e| format!("{:?}", e)) };
+        let peeked = it.peek().map(|t| t.to_vec());
+        let rest = it.count();
+        (res, rest, peeked)
+    };
+    for which in 0..2u8 {
+        match guard(|| run(which)) {
+            Err(at) => { r.dis(&["C01"], &format!("panic@{}", short_at(&at)), json!({"api": "try_from_iter", "toks": c["toks"], "allow": allow, "panic": at})); return; }
+            Ok((res, rest, peeked)) => {
+                let exp_ok = c["ok"].as_bool().unwrap_or(false);
+                let mut drift: Vec<&str> = Vec::new();
+                match &res {
+                    Ok(v) => {
+                        if !exp_ok { drift.push("accepts"); }
+                        else {
+                            if proj_li(v) != c["val"] { drift.push("value"); }
+                            if json!(rest) != c["rest"] { drift.push("cursor"); }
+                            let n = toks.len() - rest.min(toks.len());
+                            if rest > 0 && peeked.as_ref() != toks.get(n) { drift.push("peeked-subtag"); }
+                        }
+                    }
+                    Err(e) => {
+                        if exp_ok { drift.push("rejects"); }
+                        else if which == 0 && json!(e) != c["err"] { drift.push("error-kind"); }
+                    }
+                }
+                if drift.is_empty() { r.stat("iter_agree"); } else { r.stat(&format!("iter_drift_{}", drift.join("+"))); }
+            }
+        }
+    }
+    // the other public doors to the same parsers
+    if !toks.is_empty() {
+        let text = join(&toks);
+        let doors = guard(|| {
+            let a = unic_langid_impl::parser::parse_language_identifier(&text).ok();
+            let b2 = LanguageIdentifier::from_bytes(&text).ok();
+            let c2 = unic_locale_impl::parser::parse_locale(&text).ok();
+            let d = Locale::from_bytes(&text).ok();
+            (a == b2, c2 == d)
+        });
+        match doors {
+            Err(at) => r.dis(&["C01"], &format!("panic@{}", short_at(&at)), json!({"api": "parser::parse_*", "input": show(&text), "panic": at})),
+            Ok((x, y)) => { if x && y { r.stat("iter_doors_agree"); } else { r.stat("iter_drift_doors"); } }
+        }
+        // Locale parsing is the composition of the two public readers
+        if allow {
+            let comp = guard(|| {
+                let mut it = toks.iter().map(|t| t.as_slice()).peekable();
+                let id = LanguageIdentifier::try_from_iter(&mut it, true).ok();
+                let rest: Vec<Vec<u8>> = it.map(|t| t.to_vec()).collect();
+                let ext = if rest.is_empty() { Some(ExtensionsMap::default()) } else { ExtensionsMap::from_bytes(&join(&rest)).ok() };
+                let whole = Locale::from_bytes(&text).ok();
+                match (id, ext, whole) {
+                    (Some(i), Some(e), Some(w)) => w.id == i && w.extensions == e,
+                    (Some(_), Some(_), None) => false,
+                    (_, _, None) => true,
+                    (_, _, Some(_)) => false,
+                }
+            });
+            match comp {
+                Err(at) => r.dis(&["C01"], &format!("panic@{}", short_at(&at)), json!({"api": "try_from_iter + ExtensionsMap::from_bytes", "input": show(&text), "panic": at})),
+                Ok(true) => r.stat("iter_composition_agrees"),
+                Ok(false) => r.stat("iter_drift_composition"),
+            }
+        }
+    }
+}
+#[cfg(not(feature = "iterapi"))]
+pub fn check_iter(r: &mut Recorder, _c: &Value) {
+    r.stat("iter_api_not_built");
+}
+
 /// metamorphic case (C09): two inputs that differ by a meaning-preserving transformation
 pub fn check_meta(r: &mut Recorder, c: &Value) {
     let a = unbytes(&c["a"]);
@@ -944,6 +1026,7 @@ pub fn dispatch(r: &mut Recorder, c: &Value) {
         "likely" => crate::likely::check_likely(r, c),
         "dir" => crate::dir::check_dir(r, c),
         "seq" => crate::dir::check_seq(r, c),
+        "iter" => check_iter(r, c),
         "sweep" | "sweep_dir" | "sweep_universe" => {
             let mut sw = r.sweep.take().unwrap_or_default();
             sw.add(r, c);
